@@ -513,6 +513,69 @@ comment_marker_harness!(c10_comment_body_right_plus, b"{#- x+#}", 1, 2);
 comment_marker_harness!(c10_comment_body_left_plus, b"{#+x#}", 2, 0); // tier=thorough
 // @verif-end
 
+
+// ---------------------------------------------------------------------------
+// C10 / C01: the right-hand '-' marker removes ALL whitespace that follows - Unicode whitespace included,
+// counted in bytes (the tokenizer works on byte offsets).
+// ---------------------------------------------------------------------------
+macro_rules! skip_whitespace_harness {
+    ($name:ident, $src:expr) => {
+        #[kani::proof]
+        #[kani::unwind(12)]
+        fn $name() {
+            // the text is a run of whitespace characters followed by "a"; the run may be entered at ANY of its
+            // character boundaries (symbolic start offset)
+            let src: &'static str = $src;
+            let offset: usize = kani::any();
+            kani::assume(offset < src.len() && src.is_char_boundary(offset));
+            let mut t = tokenizer_at(src, 1, 0, offset);
+            t.skip_whitespace();
+            // everything up to the first non-whitespace character is gone, nothing more: the rest is "a"
+            assert!(t.current_offset == src.len() - 1);
+            assert!(t.rest_bytes().len() == 1 && t.rest_bytes()[0] == b'a');
+            kani::cover!(offset == 0);
+            kani::cover!(offset > 0);
+            core::mem::forget(t);
+        }
+    };
+}
+
+// @verif-block props=C10,C01 tier=quick cap=600 group=core doc=Tokenizer::skip_whitespace_(what_a_right-hand_'-'_marker_does)_on_a_run_of_the_listed_whitespace_characters_followed_by_"a",_entered_at_ANY_character_boundary_of_the_run:_exactly_the_whitespace_is_consumed_-_ASCII_and_Unicode_whitespace_alike,_measured_in_bytes_(no_slice_inside_a_character)
+skip_whitespace_harness!(c10_skip_ws_ascii, " \t\r\n \u{b}\u{c}a");
+skip_whitespace_harness!(c10_skip_ws_nbsp_emspace, "\u{a0}\u{2003} a");
+skip_whitespace_harness!(c10_skip_ws_line_sep_ideographic, " \u{2028}\u{3000}\u{a0}a");
+// @verif-end
+
+
+// ---------------------------------------------------------------------------
+// C08: integer literals with a radix prefix keep their radix beyond 64 bits.
+// ---------------------------------------------------------------------------
+// @verif props=C08 tier=quick cap=900 group=core fns=Tokenizer::eat_number
+/// The literal `0xD0000000000000000` (ANY non-zero hexadecimal digit D, lower case, followed by 16 zeros, i.e.
+/// D * 2^64 - the smallest hexadecimal literals that no longer fit 64 bits) lexes as the 128-bit integer
+/// D << 64: the wide path parses with the same radix as the narrow one.
+#[kani::proof]
+#[kani::unwind(21)]
+#[kani::stub(alloc::fmt::format, crate::verif_common::format_stub)]
+fn c08_hex_literal_above_u64_keeps_radix() {
+    let d: u8 = kani::any();
+    kani::assume((d >= b'1' && d <= b'9') || (d >= b'a' && d <= b'f'));
+    let buf: &'static mut [u8; 19] = Box::leak(Box::new(*b"0x00000000000000000"));
+    buf[2] = d;
+    let src: &'static str = unsafe { core::str::from_utf8_unchecked(&buf[..]) };
+    let mut t = tokenizer_at(src, 1, 0, 0);
+    let r = t.eat_number();
+    let digit = if d <= b'9' { d - b'0' } else { d - b'a' + 10 } as u128;
+    match r {
+        Ok((Token::Int128(ref v), _)) => assert!(**v == digit << 64),
+        _ => assert!(false),
+    }
+    assert!(t.current_offset == 19);
+    kani::cover!(d == b'f');
+    kani::cover!(d == b'1');
+    core::mem::forget((r, t));
+}
+
 #[cfg(test)]
 mod playback {
     use super::*;
